@@ -16,7 +16,7 @@ import (
 func init() { Registry["C07"] = c07 }
 
 func c07(c *core.Ctx) map[string]interface{} {
-	c.Explanation = "Static table/layout/coverage check of the NAS algorithms (C07). Decided: (R7.sbox) the 2x256 SNOW 3G S-box literals equal the tables the checker generates from their algebraic definitions (Rijndael S-box; Dickson polynomial box of TS 35.216 3.3.2); (R7.const) MULalpha/DIValpha exponents 23,245,48,239 / 16,39,6,64 over 0xA9 in byte positions 3..0, MULx semantics, S1/S2 byte recombination with 0x1B/0x69 as GF(2)-linear forms of the S-box outputs, LFSR feedback taps (s0<<8, MULa(s0>>24), s2, s11>>8, DIVa(s11&0xff) [,F]), FSM update, key/IV loading table of InitSnow3g (TS 35.216 3.4.1), 32 initialisation clocks and one discarded keystream clock; (R7.iv) IV/counter-block bit layouts of NEA1, NIA1, NEA2, NIA2 (TS 35.215, TS 33.401 B.1/B.2) under the BEARER<32/DIRECTION<2 guards, which are checked; dispatch of algorithm ids 0/1/2; NEA0 leaves the payload untouched; ciphertext copied back over the whole payload; CMAC truncated to 4 octets; (R7.shift) no shift in security/snow3g whose count can reach the operand width (keystream truncation covers every octet); (R7.fresh) every call starts from a fully re-initialised generator: InitSnow3g writes all 16 LFSR cells and all 3 FSM registers before anything reads them, and NEA1/NIA1 call it before GenerateKeystream. NOT decided: bit-exact equality of the complete algorithms with the 3GPP specifications (GF(2^64) evaluation and message-block arithmetic of NIA1, keystream application loops are only checked for the listed structural facts); AES, CTR and CMAC come from crypto/aes, crypto/cipher and github.com/aead/cmac (trusted)."
+	c.Explanation = "Static table/layout/coverage check of the NAS algorithms (C07). Decided: (R7.sbox) the 2x256 SNOW 3G S-box literals equal the tables the checker generates from their algebraic definitions (Rijndael S-box; Dickson polynomial box of TS 35.216 3.3.2); (R7.const) MULalpha/DIValpha exponents 23,245,48,239 / 16,39,6,64 over 0xA9 in byte positions 3..0, MULx semantics, S1/S2 byte recombination with 0x1B/0x69 as GF(2)-linear forms of the S-box outputs, LFSR feedback taps (s0<<8, MULa(s0>>24), s2, s11>>8, DIVa(s11&0xff) [,F]), FSM update, key/IV loading table of InitSnow3g (TS 35.216 3.4.1), 32 initialisation clocks and one discarded keystream clock; (R7.iv) IV/counter-block bit layouts of NEA1, NIA1, NEA2, NIA2 (TS 35.215, TS 33.401 B.1/B.2) under the BEARER<32/DIRECTION<2 guards, which are checked; dispatch of algorithm ids 0/1/2; NEA0 leaves the payload untouched; ciphertext copied back over the whole payload; CMAC truncated to 4 octets; (R7.shift) no shift in security/snow3g whose count can reach the operand width (keystream truncation covers every octet); (R7.fresh) every call starts from a fully re-initialised generator: InitSnow3g writes all 16 LFSR cells and all 3 FSM registers before anything reads them, and NEA1/NIA1 call it before GenerateKeystream. (R7.gf64) the GF(2^64) helpers of EIA1: MULx tests bit 63, MULxPOW is its i-fold application, MUL xors MULxPOW(V,i,c) for exactly the set bits i = 0..63 of P (indexed or iterative spelling); (R7.nia1-blocks / R7.nia1-horner) for every LENGTH mod 64 the block loop folds the right number of 64-bit blocks at the right offsets and never skips the Horner step Eval := (Eval xor M) * P. NOT decided: bit-exact equality of the complete algorithms with the 3GPP specifications (GF(2^64) evaluation and message-block arithmetic of NIA1, keystream application loops are only checked for the listed structural facts); AES, CTR and CMAC come from crypto/aes, crypto/cipher and github.com/aead/cmac (trusted)."
 	c.Assumptions = []string{"crypto/aes, crypto/cipher.NewCTR and github.com/aead/cmac implement AES-128, CTR mode and CMAC",
 		"S-box definitions: SR = Rijndael S-box (inverse in GF(2^8) mod 0x11B + affine map); SQ(x) = x + x^9 + x^13 + x^15 + x^33 + x^41 + x^45 + x^47 + x^49 + 0x25 in GF(2^8) mod 0x169 (TS 35.216 3.3.2)"}
 	r7sbox(c)
@@ -25,6 +25,7 @@ func c07(c *core.Ctx) map[string]interface{} {
 	r7init(c)
 	r7iv(c)
 	r7dispatch(c)
+	r7gf64(c)
 	r7nia1blocks(c)
 	r7shift(c, []string{pSec, pSnow})
 	return nil
@@ -1141,7 +1142,9 @@ func r7nia1eval(c *core.Ctx, R string, fn *ssa.Function) {
 			nQ++
 		}
 	}
-	c.Check(len(muls) == 3 && nP == 2 && nQ == 1 && polyOK, R, "security.NIA1:P-Q", fn.Pos(), "P = z1||z2 for the message blocks, Q = z3||z4 for the final multiplication, polynomial 0x1B",
+	// two multiplications by P (block loop + final block) or one (a single loop over all blocks,
+	// judged by R7.nia1-blocks), then exactly one by Q
+	c.Check((len(muls) == 3 && nP == 2 || len(muls) == 2 && nP == 1) && nQ == 1 && polyOK, R, "security.NIA1:P-Q", fn.Pos(), "P = z1||z2 for the message blocks, Q = z3||z4 for the final multiplication, polynomial 0x1B",
 		"EIA1 must multiply by P=z1||z2 (message blocks) and by Q=z3||z4 (after adding LENGTH) modulo x^64+x^4+x^3+x+1; found %d multiplications (%d by P, %d by Q, polynomial ok=%v)", len(muls), nP, nQ, polyOK)
 	// final: MAC = uint32(Eval>>32) ^ z[4], Eval = mul(Eval ^ length, Q)
 	put := onlyCall(c, R, fn, "encoding/binary.bigEndian.PutUint32")
@@ -1435,6 +1438,38 @@ func r7nia1blocks(c *core.Ctx) {
 			}
 		}
 	}
+	r7nia1horner(c, fn, p)
+	if limit != nil && idxLoop != nil && idxTail == nil {
+		// unified form: one loop over all ceil(LENGTH/64) blocks, the block read being zero-padded
+		// when fewer than 8 octets remain (a copy into a fresh 8-octet buffer)
+		padded := false
+		for _, ci := range core.CallsTo(fn, "builtin.copy") {
+			a := ci.Common().Args
+			dst := p.Path(a[0])
+			fresh8 := strings.HasPrefix(dst, "makeslice(8)") || strings.HasPrefix(dst, "local:*[8]byte#") || strings.HasPrefix(dst, "local:*[8]uint8#")
+			if fresh8 && strings.Contains(p.Path(a[1]), "p4[") {
+				padded = true
+			}
+		}
+		okIdx := commEq(p.Path(idxLoop), "(8*"+p.Path(loopPhiOf(fn, limit))+")")
+		bad := ""
+		for r := int64(0); r < 64 && bad == ""; r++ {
+			wb := int64(0) // ceil((64q+r)/64) = q + (r>0 ? 1 : 0)
+			if r > 0 {
+				wb = 1
+			}
+			lf := evalResidue(p, limit, "p5", 64, r, 0)
+			if !lf.ok {
+				c.Undecided("NIA1: block-count expression %s is outside the residue-class evaluator", p.Path(limit))
+			}
+			if lf.a != 1 || lf.b != wb {
+				bad = fmt.Sprintf("LENGTH = 64q+%d: the loop folds %dq%+d blocks, want q%+d (expression %s)", r, lf.a, lf.b, wb, p.Path(limit))
+			}
+		}
+		c.Check(bad == "" && okIdx && padded, R, "security.NIA1:block-count", fn.Pos(), "64/64 residues of LENGTH mod 64: ceil(LENGTH/64) blocks at 8*i, the last one zero-padded",
+			"EIA1 message splitting is wrong: %s (block index 8*i: %v, short last block zero-padded: %v)", bad, okIdx, padded)
+		return
+	}
 	if limit == nil || idxLoop == nil || idxTail == nil {
 		c.Undecided("NIA1: message-block loop not in the recognised form (counted loop over msg[8*i:] followed by a tail block msg[k:])")
 	}
@@ -1475,4 +1510,221 @@ func loopPhiOf(fn *ssa.Function, limit ssa.Value) ssa.Value {
 		}
 	}
 	return nil
+}
+
+// r7nia1horner: EIA1 evaluates the message polynomial by Horner's rule: for every
+// block, without exception, Eval := (Eval xor M_i) * P in GF(2^64). The loop-carried
+// Eval must therefore come back to the loop head only as mul(Eval ^ M, P, 0x1b): a
+// path on which it comes back unchanged (a skipped block) or changed otherwise drops
+// one multiplication by P, and the MAC is no longer the EIA1 MAC.
+func r7nia1horner(c *core.Ctx, fn *ssa.Function, p *core.Pather) {
+	const R = "R7.nia1-horner"
+	c.Rule(R, "NIA1: on every way round the block loop Eval becomes mul(Eval ^ M, P, 0x1b) (Horner step never skipped)")
+	n := 0
+	for _, l := range allLoopPhis(fn) {
+		bt, isBasic := l.phi.Type().Underlying().(*types.Basic)
+		if !isBasic || bt.Kind() != types.Uint64 {
+			continue
+		}
+		// the accumulator: some alternative of its back edge is a mul call
+		var alts []ssa.Value
+		var flat func(v ssa.Value, d int)
+		flat = func(v ssa.Value, d int) {
+			if ph, isPhi := v.(*ssa.Phi); isPhi && ph != l.phi && d < 5 {
+				for _, e := range ph.Edges {
+					flat(e, d+1)
+				}
+				return
+			}
+			alts = append(alts, v)
+		}
+		for _, e := range l.backEdges {
+			flat(e, 0)
+		}
+		isAcc := false
+		for _, a := range alts {
+			if call, ok := a.(*ssa.Call); ok && core.CalleeName(&call.Call) == pSec+".mul" {
+				isAcc = true
+			}
+		}
+		if !isAcc {
+			continue
+		}
+		acc := p.Path(l.phi)
+		for k, a := range alts {
+			n++
+			key := fmt.Sprintf("security.NIA1:%s:back-edge#%d", acc, k)
+			okStep := false
+			if call, isCall := a.(*ssa.Call); isCall && core.CalleeName(&call.Call) == pSec+".mul" && len(call.Call.Args) == 3 {
+				x, isXor := call.Call.Args[0].(*ssa.BinOp)
+				k1b, _ := core.ConstInt(call.Call.Args[2])
+				if isXor && x.Op == token.XOR && (p.Path(x.X) == acc || p.Path(x.Y) == acc) && k1b == 0x1b {
+					okStep = true
+				}
+			}
+			c.Check(okStep, R, key, l.phi.Pos(), "mul(Eval ^ M, P, 0x1b)", "Eval returns to the head of the block loop as %s: every block, including an all-zero one, must be folded as mul(Eval ^ M, P, 0x1b) — a skipped or different step loses a multiplication by P", clip(p.Path(a)))
+		}
+	}
+	if n == 0 {
+		c.SoftUndecided("NIA1: no loop-carried accumulator updated by security.mul found")
+	}
+}
+
+// ---------------------------------------------------------------- R7.gf64
+// GF(2^64) arithmetic of EIA1 (TS 35.215 4.3): MULx(V,c) = (V<<1) xor c when the
+// leftmost bit of V is set, V<<1 otherwise; MUL(V,P,c) = XOR over the set bits i of
+// P of MULxPOW(V,i,c). Two spellings of MUL are recognised: indexed (for i < 64:
+// bit i of P selects MULxPOW(V,i,c)) and iterative (while P != 0: bit 0 of P selects
+// the running V, then V = MULx(V,c), P >>= 1).
+func r7gf64(c *core.Ctx) {
+	const R = "R7.gf64"
+	c.Rule(R, "security.mulx / mulxPow / mul: MULx tests bit 63, MUL xors MULxPOW(V,i,c) for exactly the set bits i = 0..63 of P")
+	top := "9223372036854775808"
+	{
+		fn := mustFunc(c, pSec, "mulx")
+		p := core.NewPather(fn)
+		ok := false
+		if len(fn.Blocks) >= 3 {
+			if iff, isIf := fn.Blocks[0].Instrs[len(fn.Blocks[0].Instrs)-1].(*ssa.If); isIf {
+				cond := p.Path(iff.Cond)
+				t, e := retPath(p, fn.Blocks[0].Succs[0]), retPath(p, fn.Blocks[0].Succs[1])
+				sh := func(s string) bool { return s == "((p0<<1)^p1)" || s == "(p1^(p0<<1))" }
+				if (cond == "((p0&"+top+")!=0)" || cond == "((p0>>63)!=0)" || cond == "((p0>>63)==1)") && sh(t) && e == "(p0<<1)" {
+					ok = true
+				}
+				if (cond == "((p0&"+top+")==0)" || cond == "((p0>>63)==0)") && sh(e) && t == "(p0<<1)" {
+					ok = true
+				}
+			}
+		}
+		c.Check(ok, R, "security.mulx", fn.Pos(), "V bit 63 ? (V<<1)^c : V<<1", "MULx over 64 bits must be (V<<1)^c when bit 63 of V is set and V<<1 otherwise")
+	}
+	powFn := c.P.Func(pSec, "mulxPow")
+	if powFn != nil && len(powFn.Blocks) > 0 {
+		p := core.NewPather(powFn)
+		ok := false
+		if len(powFn.Blocks) >= 3 {
+			if iff, isIf := powFn.Blocks[0].Instrs[len(powFn.Blocks[0].Instrs)-1].(*ssa.If); isIf {
+				cond := p.Path(iff.Cond)
+				t, e := retPath(p, powFn.Blocks[0].Succs[0]), retPath(p, powFn.Blocks[0].Succs[1])
+				rec := "call:" + pSec + ".mulx(call:" + pSec + ".mulxPow(p0,(p1-1),p2),p2)"
+				if cond == "(p1==0)" && t == "p0" && e == rec {
+					ok = true
+				}
+				if cond == "(p1!=0)" && e == "p0" && t == rec {
+					ok = true
+				}
+			}
+		}
+		c.Check(ok, R, "security.mulxPow", powFn.Pos(), "i==0 ? V : MULx(MULxPOW(V,i-1,c),c)", "MULxPOW must be the i-fold application of MULx")
+	}
+	fn := mustFunc(c, pSec, "mul")
+	p := core.NewPather(fn)
+	loops := allLoopPhis(fn)
+	// result: returned value is the loop-carried accumulator that starts at 0
+	ret := singleReturnAny(fn)
+	var acc *loopInfoX
+	for i := range loops {
+		if ret != nil && (ssa.Value(loops[i].phi) == ret) {
+			acc = &loops[i]
+		}
+	}
+	if acc == nil {
+		c.SoftUndecided("security.mul: result is not a loop-carried accumulator")
+		return
+	}
+	if k, isK := core.ConstInt(acc.init); !isK || k != 0 {
+		c.Fail(R, "security.mul:init", fn.Pos(), "the product accumulator must start at 0")
+		return
+	}
+	// alternatives of the accumulator's back edge with the condition selecting them
+	var upd ssa.Value
+	var updCond string
+	okAlts := true
+	for _, e := range acc.backEdges {
+		ph, isPhi := e.(*ssa.Phi)
+		if !isPhi {
+			okAlts = false
+			continue
+		}
+		for i, a := range ph.Edges {
+			if a == ssa.Value(acc.phi) {
+				continue
+			}
+			upd = a
+			pred := ph.Block().Preds[i]
+			// the block computing the update is entered on the true side of the bit test
+			for x := pred; x != nil; x = x.Idom() {
+				id := x.Idom()
+				if id == nil {
+					break
+				}
+				if iff, isIf := id.Instrs[len(id.Instrs)-1].(*ssa.If); isIf && len(x.Preds) == 1 && id.Succs[0] == x {
+					updCond = p.Path(iff.Cond)
+					break
+				}
+			}
+		}
+	}
+	if upd == nil || !okAlts {
+		c.SoftUndecided("security.mul: accumulator update not in the form `if bit { rst ^= term }`")
+		return
+	}
+	x, isXor := upd.(*ssa.BinOp)
+	if !isXor || x.Op != token.XOR {
+		c.Fail(R, "security.mul:update", fn.Pos(), "partial products must be combined by XOR (addition in GF(2)); the update is %s", clip(p.Path(upd)))
+		return
+	}
+	term := x.Y
+	if x.Y == ssa.Value(acc.phi) {
+		term = x.X
+	}
+	accN := p.Path(acc.phi)
+	// indexed form
+	for _, l := range loopBounds(fn) {
+		iv := p.Path(l.phi)
+		if l.initOK && l.init == 0 && l.step == 1 {
+			full := l.limitOK && ((l.op == token.LSS && l.limit == 64) || (l.op == token.LEQ && l.limit == 63))
+			okBit := updCond == "(((p1>>"+iv+")&1)==1)" || updCond == "(((p1>>"+iv+")&1)!=0)"
+			okTerm := p.Path(term) == "call:"+pSec+".mulxPow(p0,"+iv+",p2)"
+			c.Check(full && okBit && okTerm, R, "security.mul:indexed", fn.Pos(), "for i in 0..63: bit i of P ⇒ rst ^= MULxPOW(V,i,c)",
+				"MUL must xor MULxPOW(V,i,c) into the result for exactly the set bits i = 0..63 of P; loop covers 0..%d (op %s), bit test %s, term %s", l.limit, l.op, updCond, clip(p.Path(term)))
+			return
+		}
+	}
+	// iterative form: V' = mulx(V,c) and P' = P>>1 on every way round, bit 0 of the running P selects the running V
+	var vPhi, pPhi *loopInfoX
+	for i := range loops {
+		l := &loops[i]
+		if l.phi == acc.phi {
+			continue
+		}
+		switch p.Path(l.init) {
+		case "p0":
+			vPhi = l
+		case "p1":
+			pPhi = l
+		}
+	}
+	if vPhi == nil || pPhi == nil {
+		c.SoftUndecided("security.mul: neither the indexed nor the iterative form of the GF(2^64) product (accumulator %s)", accN)
+		return
+	}
+	okV, okP := len(vPhi.backEdges) > 0, len(pPhi.backEdges) > 0
+	for _, e := range vPhi.backEdges {
+		if p.Path(e) != "call:"+pSec+".mulx("+p.Path(vPhi.phi)+",p2)" {
+			okV = false
+		}
+	}
+	for _, e := range pPhi.backEdges {
+		if p.Path(e) != "("+p.Path(pPhi.phi)+">>1)" {
+			okP = false
+		}
+	}
+	pn := p.Path(pPhi.phi)
+	okBit := updCond == "(("+pn+"&1)==1)" || updCond == "(("+pn+"&1)!=0)"
+	okTerm := term == ssa.Value(vPhi.phi)
+	okExit := p.Path(acc.cond) == "("+pn+"!=0)" || p.Path(pPhi.cond) == "("+pn+"!=0)"
+	c.Check(okV && okP && okBit && okTerm && okExit, R, "security.mul:iterative", fn.Pos(), "while P != 0: bit 0 of P ⇒ rst ^= V; V = MULx(V,c); P >>= 1",
+		"iterative MUL must, on every round, xor the running V into the result when bit 0 of the running P is set, then replace V by MULx(V,c) and shift P right by one, until P is 0 (V update %v, P update %v, bit test %s, term is running V %v, exit on P==0 %v)", okV, okP, updCond, okTerm, okExit)
 }
